@@ -290,7 +290,15 @@ class AdminTwin(c14.ServerModel):
         tw.a.close()
 
     def ops(self, tw):
-        return super().ops(tw) + [('tick',), ('admin-toggle',)]
+        ops = super().ops(tw) + [('tick',), ('admin-toggle',)]
+        # a refused administrator login (no / wrong credentials) right
+        # before an application client connects: one operation, so that the
+        # refusal and what follows cannot be separated by a state merge
+        for op in list(ops):
+            if op[0] == 'connect' and op[1] == 0 and op[3] == 'accept':
+                for how in ('none', 'wrong'):
+                    ops.append(('bad-login-then',  how) + tuple(op))
+        return ops
 
     def _admin_on(self, tw):
         w = tw.a
@@ -300,6 +308,20 @@ class AdminTwin(c14.ServerModel):
     def apply(self, tw, op):
         if op[0] == 'tick':
             self._do(tw, op, lambda w: (tick(w), ('ok', None))[1])
+            return
+        if op[0] == 'bad-login-then':
+            w = tw.a
+            if getattr(w, 'bad_t', None) is None:
+                w.bad_t = w.new_transport()
+            w.recv_packet(w.bad_t, 0, ADMIN, None,
+                          None if op[1] == 'none' else {'username': 'adm',
+                                                        'password': 'no'})
+            if w.sid_of(w.bad_t, ADMIN) is not None:
+                self._bad(tw, 'admin/login', f'{op}: an administrator '
+                          f'login without valid credentials was accepted')
+            w.drain(w.bad_t)
+            del w.task_errors[:]
+            super().apply(tw, tuple(op[2:]))
             return
         if op[0] == 'admin-toggle':
             # an administrator logs in / leaves while application clients
